@@ -61,6 +61,8 @@ def mat(v, B=None):
                         return ts.tz_convert(ZoneInfo(v["conv"])).to_pydatetime()   # zone-aware through zoneinfo, not pytz
                     ts = ts.tz_convert(v["conv"])
                 return ts.to_pydatetime()
+            if t == "fl":
+                return float(v["v"])          # "inf" / "-inf" / "nan" (kept as text so that plans stay strict JSON)
             if t == "np_int":
                 return np.int64(v["v"])
             if t == "np_bool":
@@ -195,6 +197,22 @@ class Builder:
 def build_grid(s):
     return eao.assets.Timegrid(mat(s["start"]), mat(s["end"]), freq=s["freq"],
                                main_time_unit=s["mtu"], timezone=s.get("tz"))
+
+
+def bump_attr(a, attr):
+    """A new, usually still valid value for one scalar attribute of a live asset (None: leave it alone)."""
+    v = getattr(a, attr, None)
+    if attr == "price" and isinstance(v, str) and v in PRICE_KEYS:
+        return PRICE_KEYS[(PRICE_KEYS.index(v) + 1) % len(PRICE_KEYS)]
+    if isinstance(v, bool) or not isinstance(v, (int, float)):
+        return None
+    if attr == "efficiency":
+        return 0.85 if v != 0.85 else 0.95
+    if attr in ("time_back", "time_forward", "asset2_time_already_running"):
+        return v + 1
+    if attr == "time_already_running":
+        return None if getattr(a, "time_already_off", 0) != 0 else v + 1
+    return round(float(v) + 0.5, 3)
 
 
 def apply_price_update(pr, key, mul, add, style="assign"):
@@ -546,6 +564,10 @@ def gen_vec(env, lo, hi, kind, str_key=None, p_scalar=0.55, p_str=0.1, nd=2, sha
     """Parameter of type Union[float, StartEndValueDict, str]."""
     rng = env.rng
     r = rng.random()
+    if getattr(env, "arr_T", None) and rng.random() < 0.45:
+        # a plain array with one value per step (fits every grid with that many steps), or a single value as an array
+        k = env.arr_T if rng.random() < 0.75 else 1
+        return {"$t": "nd", "v": [round(rng.uniform(lo, hi), nd) for _ in range(k)]}
     if r < p_scalar:
         return round(rng.uniform(lo, hi), nd)
     if str_key is not None and r < p_scalar + p_str:
@@ -554,6 +576,12 @@ def gen_vec(env, lo, hi, kind, str_key=None, p_scalar=0.55, p_str=0.1, nd=2, sha
     if ref is not None:
         return ref
     sev = gen_sev(env, lambda i: round(rng.uniform(lo, hi), nd))
+    if getattr(env, "special_floats", False) and kind in ("ec", "sc", "rc", "cf", "sh") and rng.random() < 0.3:
+        # "not specified here, use the default": NaN in the values of an interval dict (these parameters have defaults)
+        vals_ = sev["d"]["values"]
+        vals_ = vals_ if isinstance(vals_, list) else (vals_["v"] if isinstance(vals_, dict) else None)
+        if vals_ is not None and len(vals_) >= 2:
+            sev["d"]["values"] = {"$t": "nd", "v": [None] + [float(x) for x in vals_[1:]]}
     out = maybe_shared(env, sev, share)
     reg_kind(env, out, kind)
     return out
@@ -568,6 +596,17 @@ def gen_cap_pair(env, lo_rng, hi_rng, allow_keys=True, share=0.25):
     if hi < lo:
         lo, hi = hi, lo
     lo_fixed, hi_fixed = lo_rng[0] == lo_rng[1], hi_rng[0] == hi_rng[1]
+    if getattr(env, "special_floats", False) and not (lo_fixed and hi_fixed) and rng.random() < 0.12:
+        # "unlimited": an infinite capacity on one side
+        return (lo, {"$t": "fl", "v": "inf"}) if (not hi_fixed and (lo_fixed or rng.random() < 0.5)) else ({"$t": "fl", "v": "-inf"}, hi)
+    if getattr(env, "arr_T", None) and not (lo_fixed and hi_fixed) and rng.random() < 0.5:
+        # capacities as plain arrays with one value per step
+        k = env.arr_T
+        lo_a = {"$t": "nd", "v": [round(lo - rng.uniform(0, 2), 2) for _ in range(k)]}
+        hi_a = {"$t": "nd", "v": [round(hi + rng.uniform(0, 2), 2) for _ in range(k)]}
+        if lo_fixed or hi_fixed:
+            return (lo, hi_a) if lo_fixed else (lo_a, hi)
+        return rng.choice([(lo_a, hi_a), (lo, hi_a), (lo_a, hi)])
     if r < 0.5 or (lo_fixed and hi_fixed):
         if rng.random() < 0.25:
             lo, hi = int(np.floor(lo)), int(np.ceil(hi))   # plain Python ints are scalars too
@@ -758,6 +797,8 @@ def asset_name(env):
         seq = ["", "1", "10", "2", "11", "21", "12", "100", "3", "13", "101", "20", "4", "14", "110", "5", "15", "111", "22", "6", "16", "7"]
         return fam + (seq[n] if n < len(seq) else "_%d" % n)
     pool = ["a%d", "A_%d", "%d", "a%d_x", "as %d"]
+    if getattr(env, "unicode_names", False):
+        pool = pool + ["Gasspeicher Süd %d", "€ %d"]     # names are free text
     return env.rng.choice(pool) % n
 
 
@@ -910,7 +951,7 @@ def gen_storage(env, nodes, grid_freq="h", mip_ok=True):
         kw["inflow"] = round(min(kw["cap_out"], 1.0) * rng.uniform(0.05, 0.5), 3)
     if rng.random() < 0.3:
         kw["price"] = rng.choice(PRICE_KEYS)
-    if rng.random() < 0.15 and grid_freq != "d" and grid_freq not in CAL_FREQS:
+    if rng.random() < (0.5 if getattr(env, "emph", None) == "storage" else 0.15) and grid_freq != "d" and grid_freq not in CAL_FREQS:
         kw["block_size"] = rng.choice(["d", "2d"])
     if mip_ok and rng.random() < 0.2:
         kw["no_simult_in_out"] = True
